@@ -30,6 +30,8 @@ func runCanned(t *testing.T, tape *Tape, w *World, variant string, steps int, ou
 		out.v = r.cannedPrunedAck()
 	case "dl_chain":
 		out.v = r.cannedDLChain()
+	case "prune_dl":
+		out.v = r.cannedPruneDL()
 	default:
 		panic("HARNESS: unknown canned scenario " + variant)
 	}
@@ -233,3 +235,41 @@ func (r *Run) cannedDLChain() *Violation {
 }
 
 func init() { engines["canned"] = runCanned }
+
+// prune_dl (must hold on the unchanged tree): a dead-lettered message is still outstanding on a
+// live subscription of the dead-letter topic when its source subscription and source topic are
+// deleted and every maintenance job has run over the remains, in several rounds and with
+// several age thresholds: no job may change a live row, the subscription still receives the
+// message, and once it is acknowledged and everything is deleted nothing is left behind.
+func (r *Run) cannedPruneDL() *Violation {
+	steps := []func() *Violation{
+		func() *Violation { return r.xTopic(0) },
+		func() *Violation { return r.xTopic(1) },
+		func() *Violation {
+			return r.xSub(0, 0, func(c *SubCfg, q *pubsubpb.Subscription) {
+				shortRetry(c, q)
+				c.DLTopic, c.MaxAttempts = r.M.LiveTopic(topicName(1)), 1
+				q.DeadLetterPolicy = &pubsubpb.DeadLetterPolicy{DeadLetterTopic: topicName(1), MaxDeliveryAttempts: 1}
+			})
+		},
+		func() *Violation { return r.xSub(2, 1, shortRetry) },
+		func() *Violation { return r.xPublish(0, nil, "") },
+		func() *Violation { return r.pullSub(r.sub(0), false) },
+		func() *Violation { r.sleep(5 * time.Second); return nil },
+		func() *Violation { return r.pullSub(r.sub(0), false) }, // attempts used up: forwarded to t1
+		func() *Violation { return r.doDeleteSub(0) },
+		func() *Violation { return r.doDeleteTopic(0) },
+		func() *Violation { r.sleep(3 * time.Hour); return nil },
+	}
+	for round := 0; round < 4; round++ {
+		for j := 0; j < 6; j++ {
+			j, minAge, maxDel := j, []time.Duration{time.Hour, 0, time.Second, time.Hour}[round], []int{100, 1, 2, 100}[round]
+			steps = append(steps, func() *Violation { return r.runJob(j, minAge, maxDel, false) })
+		}
+	}
+	steps = append(steps,
+		func() *Violation { return r.pullSub(r.sub(2), true) }, // the forwarded message, acknowledged
+		func() *Violation { return r.fixpoint() },
+	)
+	return r.runSteps(steps)
+}
